@@ -25,6 +25,18 @@ pub open spec fn step_links_ok(step: Step, links: Map<KeyId, Metablock>, pubkeys
         links.contains_key(k) && out[k] == links[k] && step.pub_keys@.contains(k)
         && pubkeys.contains_key(k) && signed_by(links[k], pubkeys[k])
 }
+// C02/C13 exact: which links of a step count is a function of the views only (no dependence on iteration order)
+pub open spec fn link_counts(step: Step, links: Map<KeyId, Metablock>, pubkeys: Map<KeyId, PublicKey>, k: KeyId) -> bool {
+    links.contains_key(k) && step.pub_keys@.contains(k) && pubkeys.contains_key(k)
+    && verify_ok(links[k], 1, seq![&pubkeys[k]])
+}
+pub open spec fn counting_links(step: Step, links: Map<KeyId, Metablock>, pubkeys: Map<KeyId, PublicKey>) -> Set<KeyId> {
+    links.dom().filter(|k: KeyId| link_counts(step, links, pubkeys, k))
+}
+pub open spec fn step_links_exact(step: Step, links: Map<KeyId, Metablock>, pubkeys: Map<KeyId, PublicKey>, out: Map<KeyId, Metablock>) -> bool {
+    (forall|k: KeyId| #[trigger] out.contains_key(k) <==> link_counts(step, links, pubkeys, k))
+    && (forall|k: KeyId| #[trigger] out.contains_key(k) ==> out[k] == links[k])
+}
 pub open spec fn links_of(all: Map<String, HashMap<KeyId, Metablock>>, name: String) -> Map<KeyId, Metablock> {
     if all.contains_key(name) { all[name]@ } else { Map::empty() }
 }
@@ -33,6 +45,7 @@ pub open spec fn thresholds_ok(layout: LayoutMetadata, input: Map<String, HashMa
     && forall|name: String| #[trigger] out.contains_key(name) ==> exists|j: int| 0 <= j < layout.steps@.len()
         && layout.steps@[j].name == name
         && step_links_ok(layout.steps@[j], links_of(input, name), layout.keys@, out[name]@)
+        && step_links_exact(layout.steps@[j], links_of(input, name), layout.keys@, out[name]@)
 }
 // C07
 pub open spec fn step_agrees(step: Step, link_files: Map<String, HashMap<KeyId, LinkMetadata>>) -> bool {
